@@ -28,8 +28,15 @@ type Hooks struct {
 	OnCall func(fact string, method string, args []interface{})
 }
 
+// Named numeric types: fields of such a type take part in arithmetic by their kind.
+type Money float64
+type Grade uint8
+
 type Fact struct {
 	I   int64   `json:"i"`
+	D   time.Duration `json:"d"`  // a named int64
+	Mn  Money         `json:"mn"` // a named float64
+	Gr  Grade         `json:"gr"` // a named uint8
 	I32 int32   `json:"i32"`
 	I8  int8    `json:"i8"`
 	U64 uint64  `json:"u64"`
@@ -256,6 +263,12 @@ func canonValue(b *bytes.Buffer, v reflect.Value) {
 		fmt.Fprintf(b, "%s(%q)", v.Type().Kind(), v.String())
 	case reflect.Float32, reflect.Float64:
 		fmt.Fprintf(b, "%s(%v)", v.Type().Kind(), v.Float())
+	case reflect.Int, reflect.Int8, reflect.Int16, reflect.Int32, reflect.Int64:
+		// by kind, not by type name: where a value of a named numeric type travels through a location of no
+		// fixed type (top-level variable, JSON member, interface element) only kind and value are its identity
+		fmt.Fprintf(b, "%s(%d)", v.Type().Kind(), v.Int())
+	case reflect.Uint, reflect.Uint8, reflect.Uint16, reflect.Uint32, reflect.Uint64:
+		fmt.Fprintf(b, "%s(%d)", v.Type().Kind(), v.Uint())
 	default:
 		fmt.Fprintf(b, "%s(%v)", v.Type().Kind(), v.Interface())
 	}
